@@ -217,6 +217,7 @@ class Channel(BaseChannel):
                                      encountered an error.
         :return:
         """
+        is_closed = self.is_closed
         try:
             self._connection.check_for_errors()
         except AMQPConnectionError:
@@ -225,7 +226,7 @@ class Channel(BaseChannel):
 
         self.check_for_exceptions()
 
-        if self.is_closed:
+        if is_closed:
             raise AMQPChannelError('channel closed')
 
     def check_for_exceptions(self):
